@@ -53,20 +53,54 @@ def check_sigma_floor(P, R):
         R.check(ok, "GUARD.floor", f.key, src(st)[:60], "followed on every path by the floor clamp", "the updated covariances are not clamped to variance_floor afterwards (clamp missing or before the update)", st.lineno)
     # zero-matrix guard of the per-component solve
     solves = [c for c in walk_no_nested(f.node) if isinstance(c, ast.Call) and src(c.func).split(".")[-1] in ("solve", "inv")]
+    from ..dataflow import cone as _cone13
     for c in solves:
-        p = getattr(c, "_parent", None)
+        # the matrix that is solved / inverted, and the array it is an element of
+        a0 = c.args[0] if c.args else None
+        base = a0
+        while isinstance(base, ast.Subscript):
+            base = base.value
+        bname = base.id if isinstance(base, ast.Name) else None
+
+        def nonzero_test(e, st_, selects=False):
+            """`e` derives from a test that the (per-component) matrix has a non-zero entry: .any() / count_nonzero / != 0 on it;
+            selects=True: `e` must moreover be a *selection of indices* by that test (flatnonzero / nonzero / where / a mask
+            subscript), not just any quantity computed from the mask (its length)"""
+            cn = _cone13(du, e, st_, interproc=False)
+            if selects and not any(isinstance(x, ast.Call) and (x.func.attr if isinstance(x.func, ast.Attribute) else getattr(x.func, "id", "")) in ("flatnonzero", "nonzero", "where", "argwhere", "compress") for x in cn.nodes) and not any(isinstance(x, ast.Subscript) and isinstance(x.value, ast.Call) and src(x.value.func).split(".")[-1] == "arange" for x in cn.nodes):
+                return False
+            for x in cn.nodes:
+                if isinstance(x, ast.Call) and isinstance(x.func, ast.Attribute) and x.func.attr in ("any", "count_nonzero", "nonzero", "flatnonzero"):
+                    recv = x.func.value if x.func.attr == "any" and not (isinstance(x.func.value, ast.Name) and x.func.value.id in ("np", "numpy")) else (x.args[0] if x.args else None)
+                    if recv is not None and bname is not None and bname in {y.id for y in ast.walk(recv) if isinstance(y, ast.Name)}:
+                        return True
+                    if recv is not None and bname is not None:
+                        rc = _cone13(du, recv, st_, interproc=False)
+                        if bname in {y.id for y in rc.nodes if isinstance(y, ast.Name)} or bname in {d.var for d in rc.defs}:
+                            return True
+            return False
         guarded = False
-        per_component = False
+        st_c = du.stmt_of(c)
+        p = getattr(c, "_parent", None)
         while p is not None and not isinstance(p, ast.FunctionDef):
-            if isinstance(p, ast.ListComp):
-                per_component = True
-                if any(g.ifs and any("any" in src(i) for i in g.ifs) for g in p.generators):
-                    guarded = True
-            if isinstance(p, ast.If) and "any" in src(p.test) and not per_component:
+            if isinstance(p, (ast.ListComp, ast.GeneratorExp)):
+                for g in p.generators:
+                    if any(nonzero_test(i, st_c) for i in g.ifs):
+                        guarded = True  # [solve(A[c]) for c in ... if A[c].any()]
+                    if nonzero_test(g.iter, st_c, selects=True):
+                        guarded = True  # for c in np.flatnonzero(mask)
+            if isinstance(p, ast.For) and nonzero_test(p.iter, p, selects=True):
                 guarded = True
+            if isinstance(p, ast.If) and isinstance(a0, ast.Subscript):
+                # a test on this very component: if A[c].any(): solve(A[c])
+                if any(isinstance(x, ast.Call) and isinstance(x.func, ast.Attribute) and x.func.attr == "any" and src(x.func.value) == src(a0) for x in ast.walk(p.test)) and any(st_c is y or st_c in list(ast.walk(y)) for y in p.body):
+                    guarded = True
             p = getattr(p, "_parent", None)
-        if not guarded and any(isinstance(a, ast.Subscript) and "mask" in src(a.slice) for a in c.args):
-            guarded = True
+        # masked selection: solve(A[mask], B[mask]) with mask = A.any(...)
+        if not guarded and isinstance(a0, ast.Subscript) and not isinstance(a0.slice, (ast.Constant, ast.Slice)) and nonzero_test(a0.slice, st_c):
+            idx_is_loopvar = isinstance(a0.slice, ast.Name) and any(isinstance(q, (ast.For, ast.comprehension)) and isinstance(q.target, ast.Name) and q.target.id == a0.slice.id for q in ast.walk(f.node))
+            if not idx_is_loopvar or True:
+                guarded = True
         R.check(guarded, "GUARD.zero-matrix", f.key, src(c)[:50], "only solved for non-zero A[c]", "the per-component linear solve is no longer guarded against an all-zero matrix (singular-matrix error / NaN for a component without data)", c.lineno)
 
 
